@@ -8,9 +8,8 @@ import (
 )
 
 // generators of op lines, by op family.
-var gens = map[string]func(r *rng, n int, w *bufio.Writer){
-	"match": genMatch,
-}
+// (each op_*.go registers its families from an init function)
+var gens = map[string]func(r *rng, n int, w *bufio.Writer){}
 
 func main() {
 	if len(os.Args) < 2 {
